@@ -3,12 +3,15 @@
    client.go:123-200 with the request side of publish.go / subscribe.go / unsubscribe.go and the
    acknowledgement dispatch of serve.go:98-176. A history is ANY finite interleaving of
    [Start h rk id] (caller h registers its waiter and writes its request), [Recv a] (the reader
-   processes acknowledgement a) and [Resume h] (QoS 2 caller h, signalled by PUBREC, registers
-   for PUBCOMP and writes PUBREL); [run] gives, per event, who returns with what, which PUBREL
+   processes acknowledgement a), [Resume h] (QoS 2 caller h, signalled by PUBREC, registers
+   for PUBCOMP and writes PUBREL) and [Cancel h] (caller h gives up at its wait point because its
+   context ended: it returns the context's error, its waiter entry STAYS in the map as a stale
+   entry until an acknowledgement with that identifier takes it out); [run] gives, per event, who returns with what, which PUBREL
    is written, and whether the transport is closed.
    Hypothesis [wf]: every Start uses a new caller handle and an identifier that is not a key of
-   the waiter map(s) the request uses, i.e. identifiers of outstanding requests are pairwise
-   distinct per kind (C15 provides this for library-chosen identifiers; finding F13 is the
+   the waiter map(s) the request uses — stale entries of requests that gave up included: an
+   identifier counts as in use until an acknowledgement has consumed its entry —, i.e.
+   identifiers of outstanding requests are pairwise distinct per kind (C15 provides this for library-chosen identifiers; finding F13 is the
    situation in which it fails). Non-vacuity: [ex_hist_wf] and the examples below. *)
 From MQ Require Import Base Routing Routing_proofs.
 Open Scope N_scope.
@@ -17,7 +20,8 @@ Open Scope N_scope.
    well-formed history each request does exactly what the one-request automaton [react] does on
    that history — and [react] by definition moves only on the request's own Start, on an
    acknowledgement of the kind it is waiting for carrying its identifier, and on its own Resume
-   (until a miscounted SUBACK closes the transport, [closings]). *)
+   (until a miscounted SUBACK closes the transport, [closings]) — also when other requests give
+   up and their acknowledgements arrive late. *)
 Theorem C07_each_request_as_if_alone : forall evs h, wf evs = true ->
   view h (run sig_init evs) = spec_run h (PNone, false) evs (closings (run sig_init evs)).
 Proof. exact refines. Qed.
@@ -40,6 +44,7 @@ Theorem C07_completes_at_own_ack : forall evs pre h rk id mid a post,
   first_kind rk <> KPubRec ->
   own_ack (first_kind rk) id (Recv a) = true ->
   (forall e, In e mid -> own_ack (first_kind rk) id e = false) ->
+  ~ In (Cancel h) mid ->
   let T := length (pre ++ Start h rk id :: mid) in
   firstn T (closings (run sig_init evs)) = repeat false T ->
   view h (run sig_init evs) = repeat [] T ++ [Done h (ack_result rk a)] :: repeat [] (length post).
@@ -55,6 +60,7 @@ Theorem C07_qos2_completes_at_pubcomp : forall evs pre h id m1 a1 m2 m3 a2 post,
   (forall e, In e m1 -> own_ack KPubRec id e = false) ->
   ~ In (Resume h) m2 ->
   (forall e, In e m3 -> own_ack KPubComp id e = false) ->
+  ~ In (Cancel h) (m1 ++ m2 ++ m3) ->
   let T1 := length (pre ++ Start h RPub2 id :: m1) in
   let T3 := (T1 + (S (length m2) + S (length m3)))%nat in
   firstn T3 (closings (run sig_init evs)) = repeat false T3 ->
@@ -90,12 +96,41 @@ Theorem C07_unawaited_acks_inert : forall e1 a e2,
   run sig_init (e1 ++ Recv a :: e2) = firstn (length e1) R ++ [] :: skipn (length e1) R.
 Proof. exact unawaited_ack_inert. Qed.
 
-(* ... where "a waiter is registered under (kind, id)" means: some request is at this moment
-   waiting for exactly this acknowledgement *)
+(* (3): an acknowledgement nobody is blocked waiting for — in particular the LATE acknowledgement
+   of a request that gave up, which still finds that request's stale entry — completes nobody:
+   the event has no output at all (no hypothesis on the history) *)
+Theorem C07_late_ack_completes_nobody : forall e1 a e2,
+  awaited (state_after sig_init e1) (a_kind a) (a_id a) = false ->
+  nth (length e1) (run sig_init (e1 ++ Recv a :: e2)) [] = [].
+Proof. exact late_ack_completes_nobody. Qed.
+
+(* ... where [awaited] (an entry is registered under (kind, id) and its caller has not given up)
+   means: some request is at this moment waiting for exactly this acknowledgement *)
 Theorem C07_awaited_iff_waiting : forall evs k id,
   wf evs = true -> closed (state_after sig_init evs) = false ->
-  (wm_has (smap (state_after sig_init evs) k) id = true <-> exists h subs, phase_after h evs = PWait k id subs).
+  (awaited (state_after sig_init evs) k id = true <-> exists h subs, phase_after h evs = PWait k id subs).
 Proof. exact awaited_iff_waiting. Qed.
+
+(* a request returns at most once and with one result; one that gave up (its context ended
+   while it was waiting) returned the context's error at that event and never returns success,
+   whatever arrives later *)
+Theorem C07_done_once : forall evs h t t' r r', wf evs = true ->
+  In (Done h r) (nth t (run sig_init evs) []) -> In (Done h r') (nth t' (run sig_init evs) []) ->
+  t = t' /\ r = r'.
+Proof. exact done_once. Qed.
+
+Theorem C07_cancelled_never_succeeds : forall evs h t, wf evs = true ->
+  In (Done h RCancelled) (nth t (run sig_init evs) []) ->
+  forall t' g, ~ In (Done h (RSuccess g)) (nth t' (run sig_init evs) []).
+Proof. exact cancelled_never_succeeds. Qed.
+
+Theorem C07_cancel_returns_ctx_error : forall evs pre h rk id mid post,
+  wf evs = true -> evs = pre ++ Start h rk id :: mid ++ Cancel h :: post ->
+  (forall e, In e mid -> own_ack (first_kind rk) id e = false) -> ~ In (Cancel h) mid ->
+  let T := length (pre ++ Start h rk id :: mid) in
+  firstn T (closings (run sig_init evs)) = repeat false T ->
+  view h (run sig_init evs) = repeat [] T ++ [Done h RCancelled] :: repeat [] (length post).
+Proof. exact cancel_returns_ctx_error. Qed.
 
 (* "Subscribe returns the granted QoS per filter in request order and fails with ErrInvalidSubAck
    when the count differs" (and then closes the transport, subscribe.go:101-103) *)
@@ -104,6 +139,7 @@ Theorem C07_suback_codes : forall evs pre h subs id mid a post,
   evs = pre ++ Start h (RSub subs) id :: mid ++ Recv a :: post ->
   own_ack KSubAck id (Recv a) = true ->
   (forall e, In e mid -> own_ack KSubAck id e = false) ->
+  ~ In (Cancel h) mid ->
   let T := length (pre ++ Start h (RSub subs) id :: mid) in
   firstn T (closings (run sig_init evs)) = repeat false T ->
   nth T (run sig_init evs) [] =
@@ -119,10 +155,12 @@ Proof. exact grant_spec. Qed.
 
 (* Outside C07's domain (consequence of finding F13, identifier reuse): when a second request
    registers under the kind and identifier of an outstanding one, the first request's waiter is
-   overwritten and the first request never returns, whatever arrives later. *)
+   overwritten and the first request never returns on an acknowledgement, whatever arrives
+   later: the only way it ever returns is by giving up. *)
 Theorem C07_shared_id_first_never_completes : forall h1 h2 rk1 rk2 id post,
   h1 <> h2 -> first_kind rk1 = first_kind rk2 -> no_start h1 post ->
-  forall t r, ~ In (Done h1 r) (nth t (run sig_init (Start h1 rk1 id :: Start h2 rk2 id :: post)) []).
+  forall t r, In (Done h1 r) (nth t (run sig_init (Start h1 rk1 id :: Start h2 rk2 id :: post)) []) ->
+  r = RCancelled.
 Proof. exact shared_id_first_never_completes. Qed.
 
 Print Assumptions C07_each_request_as_if_alone.
@@ -132,7 +170,11 @@ Print Assumptions C07_qos2_completes_at_pubcomp.
 Print Assumptions C07_qos2_order.
 Print Assumptions C07_foreign_acks_inert.
 Print Assumptions C07_unawaited_acks_inert.
+Print Assumptions C07_late_ack_completes_nobody.
 Print Assumptions C07_awaited_iff_waiting.
+Print Assumptions C07_done_once.
+Print Assumptions C07_cancelled_never_succeeds.
+Print Assumptions C07_cancel_returns_ctx_error.
 Print Assumptions C07_suback_codes.
 Print Assumptions C07_grant_in_request_order.
 Print Assumptions C07_shared_id_first_never_completes.
